@@ -149,7 +149,8 @@ PLAN.update({
                 'C19_NoErrorWhileEventAvailable',
                 'C19_EmitWaitsOutReconnection'],
         'quick': ['asc_quick', 'asc_drop', 'asc_final', 'asc_emit',
-                  'asc_emit_final', 'asc_mix'],
+                  'asc_emit_final', 'asc_mix', 'asc_refail',
+                  'asc_emit_refail'],
         'thorough': list(asimple.CONFIGS),
     },
     'C19': {
@@ -159,7 +160,7 @@ PLAN.update({
                 'C19_NoErrorWhileEventAvailable',
                 'C19_EmitWaitsOutReconnection'],
         'quick': ['sc_quick', 'sc_drop', 'sc_final', 'sc_emit',
-                  'sc_emit_final'],
+                  'sc_emit_final', 'sc_refail', 'sc_emit_refail'],
         'thorough': list(simple.CONFIGS),
     },
     'C07': {
